@@ -2,6 +2,8 @@ import RedactVerif.Props.L2
 import RedactVerif.Proofs.NI
 import RedactVerif.Props.FactsClassify
 import RedactVerif.Props.FactsSkelPrinter
+import RedactVerif.Props.FactsSkelWriters
+import RedactVerif.Props.C07
 /-
 C08 — redactables compose: re-printing is identity, joining is concatenation.
 
@@ -25,8 +27,14 @@ Proved on the model:
   that can (`printSlot_redactable_iface`: through the redactable's own SafeFormat and a nested
   printer, `runScript_print_redactable`) — under every verb, flag, width and precision.
 
+* Join/JoinTo (util.go, tied by the call lists in `gen_calls_writers`): any sequence of `Print`
+  calls on a fresh StringBuilder yields the plain concatenation of the inner outputs, for all byte
+  strings (`builder_prints_concat`); `Join` is plain concatenation with the delimiter
+  (`join_concat`); Redact and StripMarkers distribute over it for finished redactables
+  (`redact_join`, `strip_join`, from `redact_append_obtainable`, `strip_append_obtainable`).
+
 NOT proved: closed forms for whole formats or containers (e.g. `Sprint([]RedactableString{r1,r2})
-= "[" r1 " " r2 "]"` as one equation) and the Join/JoinTo laws (util.go is not modelled). Decided
+= "[" r1 " " r2 "]"` as one equation); JoinTo on a writer other than a fresh StringBuilder. Decided
 on the real code by the P-compose oracle and, for the model, by the P-model correspondence.
 -/
 namespace Redact
@@ -215,6 +223,115 @@ theorem printSlot_redactable_iface (env : Env) (n : Nat) (p : PP) (r ty : List B
   rw [runScript_print_redactable env n p r ty hm ho]
   simp [he]
 
+
+/-! ### Join / JoinTo (util.go)
+
+`JoinTo(w, delim, values)` is `w.Print(values[0]); w.Print(delim); w.Print(values[1]); …`, `Join`
+runs it on a fresh StringBuilder. On a StringBuilder `Print(r)` writes the inner printer's finished
+output in raw mode (`WOp.print`, `builder_print_route`). -/
+
+/-- The calls `JoinTo` makes on its writer. -/
+def joinOps (d : List Byte) : List (List Byte) → List WOp
+  | [] => []
+  | [s] => [.print s]
+  | s :: s' :: r => .print s :: .print d :: joinOps d (s' :: r)
+
+/-- Plain concatenation with the delimiter. -/
+def joinB (d : List Byte) : List (List Byte) → List Byte
+  | [] => []
+  | [s] => s
+  | s :: s' :: r => s ++ d ++ joinB d (s' :: r)
+
+/-- Raw writes into a builder that is in raw mode: the bytes are appended as they are. -/
+theorem raw_prints (b : Buffer) (hm : b.mode = .raw) (ho : b.markerOpen = false) (ws : List (List Byte)) :
+    (builderRun b (ws.map .print)).buf = b.buf ++ ws.flatten ∧ (builderRun b (ws.map .print)).mode = .raw ∧
+      (builderRun b (ws.map .print)).markerOpen = false := by
+  induction ws generalizing b with
+  | nil => simp [builderRun, Buffer.run, hm, ho]
+  | cons w r ih =>
+    have e : builderRun b ((w :: r).map .print) = builderRun ((b.setMode .raw).write w) (r.map .print) := by
+      simp [builderRun, builderOps, Buffer.run, Buffer.step]
+    rw [e]
+    have e1 : b.setMode .raw = b := setMode_same _ _ hm
+    have e2 : b.write w = { b with buf := b.buf ++ w } := by
+      unfold Buffer.write
+      rw [startWrite_noop b (fun hc => by rw [hm] at hc; cases hc.1)]
+      rfl
+    rw [e1, e2]
+    have := ih { b with buf := b.buf ++ w } hm ho
+    simpa [List.append_assoc] using this
+
+/-- **Any sequence of `Print` calls on a fresh StringBuilder yields the plain concatenation** of the
+inner printers' outputs — for all byte strings: raw mode escapes nothing. -/
+theorem builder_prints_concat (ws : List (List Byte)) :
+    (builderRun Buffer.init (ws.map .print)).redactableBytes = ws.flatten := by
+  cases ws with
+  | nil => decide
+  | cons w r =>
+    have e : builderRun Buffer.init ((w :: r).map .print) = builderRun ((Buffer.init.setMode .raw).write w) (r.map .print) := by
+      simp [builderRun, builderOps, Buffer.run, Buffer.step]
+    rw [e]
+    have e1 : Buffer.init.setMode .raw = { Buffer.init with mode := .raw } := by decide
+    have e2 : ({ Buffer.init with mode := .raw } : Buffer).write w = { buf := w, validUntil := 0, mode := .raw, markerOpen := false } := by
+      simp [Buffer.write, Buffer.startWrite, Buffer.append, Buffer.init]
+    rw [e1, e2]
+    have ⟨hb, hm, ho⟩ := raw_prints { buf := w, validUntil := 0, mode := .raw, markerOpen := false } rfl rfl r
+    unfold Buffer.redactableBytes
+    rw [finalize_raw _ hm ho]
+    simpa using hb
+
+theorem joinOps_eq (d : List Byte) (ss : List (List Byte)) : joinOps d ss = (List.intersperse d ss).map .print := by
+  match ss with
+  | [] => rfl
+  | [s] => rfl
+  | s :: s' :: r =>
+    simp only [joinOps, List.intersperse, List.map_cons]
+    rw [joinOps_eq d (s' :: r)]
+
+theorem joinB_eq (d : List Byte) (ss : List (List Byte)) : joinB d ss = (List.intersperse d ss).flatten := by
+  match ss with
+  | [] => rfl
+  | [s] => simp [joinB, List.intersperse]
+  | s :: s' :: r =>
+    simp only [joinB, List.intersperse, List.flatten_cons]
+    rw [joinB_eq d (s' :: r), List.append_assoc]
+
+/-- **Join is plain concatenation with the delimiter.** -/
+theorem join_concat (d : List Byte) (ss : List (List Byte)) :
+    (builderRun Buffer.init (joinOps d ss)).redactableBytes = joinB d ss := by
+  rw [joinOps_eq, builder_prints_concat, joinB_eq]
+
+/-- Redact and StripMarkers distribute over concatenation with a finished redactable. -/
+theorem redact_append_obtainable (a b : List Byte) (ha : Obtainable a) : redact (a ++ b) = redact a ++ redact b := by
+  unfold redact
+  rw [tokenize_append_of_not_straddles _ _ (not_straddles_of_goodT _ _ ha.1),
+    redactT_append_wf _ _ (scanWF_of_scan _ _ _ ha.2), untok_append]
+
+theorem strip_append_obtainable (a b : List Byte) (ha : Obtainable a) :
+    stripMarkers (a ++ b) = stripMarkers a ++ stripMarkers b := by
+  unfold stripMarkers
+  rw [tokenize_append_of_not_straddles _ _ (not_straddles_of_goodT _ _ ha.1), stripT_append, untok_append]
+
+/-- **Redact distributes over Join** (elements and delimiter finished redactables). -/
+theorem redact_join (d : List Byte) (hd : Obtainable d) (ss : List (List Byte)) (hs : ∀ s ∈ ss, Obtainable s) :
+    redact (joinB d ss) = joinB (redact d) (ss.map redact) := by
+  match ss with
+  | [] => simp only [joinB, List.map_nil]; decide
+  | [s] => rfl
+  | s :: s' :: r =>
+    simp only [joinB, List.map_cons]
+    rw [List.append_assoc, redact_append_obtainable _ _ (hs s (by simp)), redact_append_obtainable _ _ hd,
+      redact_join d hd (s' :: r) (fun x hx => hs x (by simp [hx])), List.map_cons, List.append_assoc]
+
+theorem strip_join (d : List Byte) (hd : Obtainable d) (ss : List (List Byte)) (hs : ∀ s ∈ ss, Obtainable s) :
+    stripMarkers (joinB d ss) = joinB (stripMarkers d) (ss.map stripMarkers) := by
+  match ss with
+  | [] => simp only [joinB, List.map_nil]; decide
+  | [s] => rfl
+  | s :: s' :: r =>
+    simp only [joinB, List.map_cons]
+    rw [List.append_assoc, strip_append_obtainable _ _ (hs s (by simp)), strip_append_obtainable _ _ hd,
+      strip_join d hd (s' :: r) (fun x hx => hs x (by simp [hx])), List.map_cons, List.append_assoc]
 
 /-! Non-vacuity -/
 example : tailBad (startB ++ [0x78] ++ endB) = false ∧ Obtainable (startB ++ [0x78] ++ endB) := by decide
